@@ -36,6 +36,28 @@ Proof. exact (eval_is_tensor_sum F t xs cs Hne Hwf Hrow Hlen Hsc Hreg). Qed.
 (* hence the call operator too *)
 Theorem C01_call_operator_is_tensor_sum : call_operator t xs = spline_spec t xs (repeat O (ndim_of t)).
 Proof. unfold call_operator. rewrite Hsc. exact C01_eval_is_tensor_sum. Qed.
+
+(* A table whose coefficients are all one evaluates to one everywhere in the fully supported region
+   (knots[order] <= x <= knots[naxes] in every dimension): partition of unity, proved through the recurrence itself
+   (each round of de Boor's recurrence preserves the sum of the entries). *)
+Theorem C01_all_ones : (forall p, coef t p = one) -> Forall2 fully_supported (dims t) xs -> ndsplineeval t xs cs 0 = one.
+Proof. intros H1 Hfs. exact (eval_all_ones F t xs cs Hne Hwf Hrow Hlen Hsc Hreg H1 Hfs). Qed.
+
+(* The margin code deliberately reads the uninitialised allocation padding of the knot arrays. The evaluated value does not
+   depend on it: a table t' that differs from t only in what lies outside [0, nknots) in the knot arrays evaluates identically. *)
+Theorem C01_padding_irrelevant : forall (t' : @table A) cs',
+  Forall2 same_dim (dims t) (dims t') -> coef t' = coef t ->
+  dims t' <> [] -> Forall (wf_dim (fun _ => True)) (dims t') -> nth (ndim_of t' - 1) (strides_of t') 0 = 1 ->
+  searchcenters t' xs = CFound cs' -> Forall2 eval_regular (dims t') xs ->
+  ndsplineeval t' xs cs' 0 = ndsplineeval t xs cs 0.
+Proof.
+  intros t' cs' Hsame Hcf Hne' Hwf' Hrow' Hsc' Hreg'.
+  assert (Hl : length (dims t) = length (dims t')) by (clear - Hsame; induction Hsame; cbn [length]; lia).
+  rewrite (eval_is_tensor_sum F t xs cs Hne Hwf Hrow Hlen Hsc Hreg).
+  rewrite (eval_is_tensor_sum F t' xs cs' Hne' Hwf' Hrow' ltac:(lia) Hsc' Hreg').
+  unfold spline_spec, ndim_of. rewrite Hcf. symmetry. apply tensor_sum_padding; [exact Hsame|].
+  eapply Forall_impl; [|exact Hwf]. intros d [W1 [W2 _]]. split; lia.
+Qed.
 End C01.
 
 (* One dimension, the heart of it: whatever interval the margin walk ends in, bsplvb_simple returns the n+1
@@ -104,6 +126,8 @@ Proof. split; [vm_compute; reflexivity|]. split; [vm_compute; reflexivity|]. vm_
 
 Print Assumptions C01_eval_is_tensor_sum.
 Print Assumptions C01_call_operator_is_tensor_sum.
+Print Assumptions C01_all_ones.
+Print Assumptions C01_padding_irrelevant.
 Print Assumptions C01_local_basis.
 Print Assumptions C01_core_is_block_sum.
 Print Assumptions C01_hypotheses_satisfiable.
